@@ -36,6 +36,8 @@ EXTENDS ReapersGuards, Json
 
 CONSTANTS Claims,            \* subset of {"c1","c2","c3"} (static attributes in Attr)
           MaxNow, MaxFaults, MaxEnv, MaxLen,
+          NoopEvery,         \* 1 = reconciles that change nothing are always possible (checking); k > 1 = only at every k-th
+                             \* position of a behaviour (generation: random walks then spend their steps on reconciles that act)
           EA,                \* expireAfter of c1/c3 (c2: Never)
           LT, RT,            \* launch / registration timeouts
           TolReady, TolDisk, \* tolerations of the two repair policies
@@ -72,7 +74,10 @@ InitClaim(c) ==
      launched |-> IF Attr[c].reg THEN "True" ELSE "Unknown",
      registered |-> IF Attr[c].reg THEN "True" ELSE "Unknown",
      providerID |-> IF Attr[c].reg THEN Attr[c].pid ELSE "-",
-     labels |-> PoolLbl(Attr[c].pool), condSince |-> [Launched |-> 0, Registered |-> 0], terminationAt |-> -1]
+     labels |-> PoolLbl(Attr[c].pool), condSince |-> [Launched |-> 0, Registered |-> 0], terminationAt |-> -1,
+     \* dirty: the lifecycle controller has not reconciled this claim yet; its first reconcile persists the conditions it
+     \* initialises (patch + Sleep(1s)), later ones of an unregistered claim change nothing
+     dirty |-> ~Attr[c].reg]
 MkNode(name, pid, pool, ready, readySince, bad, badSince) ==
     [name |-> name, exists |-> TRUE, providerID |-> pid, ready |-> ready, labels |-> PoolLbl(pool),
      conds |-> [Ready |-> ready, BadDisk |-> bad], condSince |-> [Ready |-> readySince, BadDisk |-> badSince]]
@@ -100,6 +105,7 @@ AllNodes == [k \in {Attr[c].node : c \in {x \in Claims : node[x].exists}} |-> no
 
 Hist(e) == h' = Append(h, e)
 Fault(f) == f = "none" \/ budget.faults < MaxFaults
+Acts(effect) == effect \/ Len(h) % NoopEvery = 0
 Spend(f) == budget' = IF f = "none" THEN budget ELSE [budget EXCEPT !.faults = @ + 1]
 EnvStep == budget.env < MaxEnv /\ budget' = [budget EXCEPT !.env = @ + 1] /\ last' = NoLast
 MarkDeleted(S) == claim' = [c \in Claims |-> IF c \in S THEN [claim[c] EXCEPT !.deleting = TRUE] ELSE claim[c]]
@@ -111,7 +117,7 @@ Expire(c, f) ==
         due == (ExpireNever = "ignore" \/ cl.expireAfter >= 0) /\ now + ExpireSlack >= cl.created + cl.expireAfter
         act == cl.exists /\ ~cl.deleting /\ due
         ok == act /\ f # "delete"
-    IN /\ cl.exists /\ f \in {"none", "delete"} /\ (f = "none" \/ act) /\ Fault(f) /\ Spend(f)
+    IN /\ cl.exists /\ f \in {"none", "delete"} /\ (f = "none" \/ act) /\ Fault(f) /\ Spend(f) /\ Acts(act)
        /\ MarkDeleted(IF ok THEN {c} ELSE {})
        /\ now' = IF ok THEN now + 1 ELSE now
        /\ last' = IF ok THEN [actor |-> "expire", ok |-> G_C16_Expiration(cl, now)] ELSE NoLast
@@ -133,6 +139,7 @@ Gc(f, lf) ==
     IN /\ f \in {"none", "claimList", "provList", "delete"}
        /\ (lf # {} => (f \in {"none", "delete"} /\ lf \subseteq cands))
        /\ (f = "delete" => del # {})
+       /\ Acts(del # {} \/ f # "none" \/ lf # {})
        /\ ((f = "none" /\ lf = {}) \/ budget.faults < MaxFaults)
        /\ budget' = IF f = "none" /\ lf = {} THEN budget ELSE [budget EXCEPT !.faults = @ + 1]
        /\ MarkDeleted(delOk)
@@ -150,10 +157,11 @@ Live(c, f) ==
         act == cl.exists /\ ~cl.deleting /\ cl.registered # "True" /\ (lDue \/ rDue)
         ok == act /\ f = "none"
     IN /\ cl.exists /\ ~cl.deleting /\ cl.registered # "True"
-       /\ f \in {"none", "poolGet", "delete"} /\ (f = "none" \/ act) /\ Fault(f) /\ Spend(f)
-       /\ MarkDeleted(IF ok THEN {c} ELSE {})
+       /\ f \in {"none", "poolGet", "delete"} /\ (f = "none" \/ act) /\ Fault(f) /\ Spend(f) /\ Acts(act \/ cl.dirty)
+       /\ claim' = [claim EXCEPT ![c] = [@ EXCEPT !.deleting = @ \/ ok, !.dirty = FALSE]]
+       /\ now' = IF cl.dirty THEN now + 1 ELSE now      \* Sleep(1s) after the status patch
        /\ last' = IF ok THEN [actor |-> "live", ok |-> G_C16_Liveness(cl, now, LT, RT)] ELSE NoLast
-       /\ UNCHANGED <<now, node, listed, bg>>
+       /\ UNCHANGED <<node, listed, bg>>
        /\ Hist([a |-> "Live", c |-> c, f |-> f, del |-> IF ok THEN {c} ELSE {}])
 
 \* node.health: NodeClaim lookup by provider id, unhealthy condition + toleration, node List of the pool / cluster,
@@ -182,6 +190,7 @@ Repair(c, f) ==
        /\ (f = "nodeList" => found /\ due)
        /\ (f = "annotate" => s2 /\ needPatch)
        /\ (f = "delete" => s3 /\ ~cl.deleting)
+       /\ Acts(s1 \/ f # "none")
        /\ claim' = [claim EXCEPT ![c] = [@ EXCEPT !.terminationAt = IF annotate THEN now ELSE @,
                                                    !.deleting = @ \/ del]]
        /\ last' = IF del THEN [actor |-> "repair", ok |-> G_C16_Repair(cl, n, now, Policies, all)] ELSE NoLast
